@@ -5,7 +5,8 @@ package main
 // map[string]… composite literal and every `m["…"] = …` assignment in object/, builtins/
 // and the module packages imported by risor_globals.go — and (b) three control facts of
 // risor_config.go the Impl model depends on: the order of the apply* calls in Config.init,
-// whether resolveModule's loop looks names up in its first parameter (the root module), and
+// whether resolveModule's loop looks names up in a variable it never re-assigns (the root
+// module: the pre-fix defect) or in a cursor that starts at its first parameter, and
 // the member keys that contain a "." (they would be unreachable to WithoutGlobal); and (c) the
 // facts the option-sequence and reused-VM models depend on: which Config fields each option
 // constructor of risor_options.go writes, which VM fields vm.WithGlobals writes, that
@@ -190,7 +191,7 @@ func init() {
 			panic(fmt.Sprintf("C11: %v", err))
 		}
 		var initOrder []string
-		resolveInRoot, sawResolve, sawInit := false, false, false
+		resolveInRoot, resolveFromParam, sawResolve, sawInit := false, false, false, false
 		for _, d := range cf.Decls {
 			fd, ok := d.(*ast.FuncDecl)
 			if !ok || fd.Body == nil {
@@ -219,6 +220,12 @@ func init() {
 				if len(fd.Type.Params.List) > 0 && len(fd.Type.Params.List[0].Names) > 0 {
 					first = fd.Type.Params.List[0].Names[0].Name
 				}
+				// The loop's GetAttr receiver is a CURSOR when the loop body assigns it (the
+				// module found for one component becomes the module the next component is
+				// looked up in); a receiver the loop never assigns is the same module for every
+				// component (the root module: the pre-fix defect).  The cursor must start at the
+				// first parameter: it is the parameter itself, or a variable defined from it
+				// before the loop.
 				found := false
 				ast.Inspect(fd.Body, func(n ast.Node) bool {
 					rs, ok := n.(*ast.RangeStmt)
@@ -229,8 +236,38 @@ func init() {
 						if c, ok := m.(*ast.CallExpr); ok {
 							if se, ok := c.Fun.(*ast.SelectorExpr); ok && se.Sel.Name == "GetAttr" {
 								found = true
-								if id, ok := se.X.(*ast.Ident); ok && id.Name == first {
+								recv := ""
+								if id, ok := se.X.(*ast.Ident); ok {
+									recv = id.Name
+								}
+								assignedInLoop := false
+								ast.Inspect(rs.Body, func(k ast.Node) bool {
+									if as, ok := k.(*ast.AssignStmt); ok && as.Tok == token.ASSIGN {
+										for _, l := range as.Lhs {
+											if id, ok := l.(*ast.Ident); ok && id.Name == recv && recv != "" {
+												assignedInLoop = true
+											}
+										}
+									}
+									return true
+								})
+								if !assignedInLoop {
 									resolveInRoot = true
+								}
+								if recv == first && recv != "" {
+									resolveFromParam = true
+								}
+								for _, st := range fd.Body.List {
+									if st.Pos() >= rs.Pos() {
+										break
+									}
+									if as, ok := st.(*ast.AssignStmt); ok && len(as.Lhs) == 1 && len(as.Rhs) == 1 {
+										l, lok := as.Lhs[0].(*ast.Ident)
+										r, rok := as.Rhs[0].(*ast.Ident)
+										if lok && rok && l.Name == recv && r.Name == first && recv != "" {
+											resolveFromParam = true
+										}
+									}
 								}
 							}
 						}
@@ -468,7 +505,8 @@ func init() {
 		s += "def attrUniverse : List String := " + c11StrList(universe) + "\n\n"
 		s += "/-- member keys containing a dot -/\ndef dottedMemberKeys : List String := " + c11StrList(dotted) + "\n\n"
 		s += "/-- methods Config.init calls on its receiver, in source order -/\ndef initOrder : List String := " + c11StrList(initOrder) + "\n\n"
-		s += "/-- resolveModule's loop calls GetAttr on its first parameter (the root module) -/\ndef resolveLooksUpInRoot : Bool := " + strconv.FormatBool(resolveInRoot) + "\n\n"
+		s += "/-- resolveModule's loop calls GetAttr on a variable the loop never assigns: every path component is looked up in the same (the root) module -/\ndef resolveLooksUpInRoot : Bool := " + strconv.FormatBool(resolveInRoot) + "\n\n"
+		s += "/-- the variable resolveModule's loop calls GetAttr on is its first parameter or is defined from it before the loop: the lookup starts at the root module -/\ndef resolveStartsAtRoot : Bool := " + strconv.FormatBool(resolveFromParam) + "\n\n"
 		s += "/-- per option constructor of risor_options.go: the Config fields its body writes (assignment, delete) -/\ndef optionWrites : List String := " + c11StrList(optionWrites) + "\n\n"
 		s += "/-- per option constructor: HOW it writes each Config field — `f[]` a store through the field (cfg.f[k] = v, delete), `f=` an assignment of the field itself -/\ndef optionWriteForms : List String := " + c11StrList(optionWriteForms) + "\n\n"
 		s += "/-- every assignment OF a Config map field (globals, overrides, denylist) in the root package, as func:field=fresh|other (fresh = an empty map literal or make) -/\ndef configMapAssigns : List String := " + c11StrList(configMapAssigns) + "\n\n"
